@@ -2,10 +2,11 @@
 The verdict does not depend on the model: a real panic / hang / modified input IS the violation.
 Three parts:
  * the malformed stream through goexec AND modelexec: every case `tot.<entry> <bytes> [n]` runs one entry group of the
-   real library (goexec/total.go) and the same group over the models (Exec/TotExec.v); the outcome classes are
-   compared.  Properties/C05Tot.v proves that the model side never answers Panic / Diverge, so "real returns, model
-   returns" is what ties the totality theorems to the code; a class difference with a well-behaved real side is a
-   correspondence break (oracle message "fidelity: ...", reported through the no-failing-input-found path).
+   real library (goexec/total.go) and the same group over the models (Exec/TotExec.v); the outcome classes AND the
+   accept / reject bit of the group's primary decoder (reply [0 u e]) are compared.  Properties/C05Tot.v proves that the
+   model side never answers Panic / Diverge and that e is the Ok / Err of the primary decoder's model, so the run ties
+   which inputs are accepted to the models the totality theorems are about; a difference with a well-behaved real side
+   is a correspondence break (oracle message "fidelity: ...", reported through the no-failing-input-found path).
  * byte-level mutations of 15 valid vectors plus structure-aware mutations (every length field of well-formed PAT / PMT /
    splice_info_section / EBP / PES header / adaptation field, sections split over packets), see structured_cases.
  * the command-line tool cli/parsefile.go on mutated transport-stream files (bin/gen/c05cli.py; no executor involved)."""
@@ -53,14 +54,19 @@ RULE = ("every entry point (%d ops of goexec/total.go, each calling the decoder 
 EXHAUSTIVE = False
 MAX_REPORTS = 40
 ASSUMPTIONS = ["a call is a hang when it runs > 3 s or the heap exceeds 768 MiB (goexec watchdog), confirmed by one re-run in a fresh process",
-               "memory/time bounds are observed, not proved (DESIGN section 10); read-only = input snapshot compared after the call",
-               "model side of the tot.* ops: calls without a model (String(), Format(), fmt printing, the SCTE-35 state tracker at the end of scte.new, "
-               "psi.CanBuildPMT) are run on the real side only; Exec/TotExec.v names them per group",
+               "memory bounds are theorems for the decoder MODELS listed in Properties/C05Bound.v (ProgramMap, NewPMT streams, NewSCTE35 descriptor loop, "
+               "ReadEncoderBoundaryPoint, accumulator, state tracker); for the real code memory and time are observed by the goexec watchdog only; "
+               "read-only = input snapshot compared after the call",
+               "model side of the tot.* ops: the printers (String(), Format(), fmt %v / Sprint of a result) are modelled by the index / slice / decoder "
+               "operations they perform (Model/Printers.v), not by their text; fmt's rule 'call Error()/String() when the operand has one, else print the "
+               "fields by reflection' is transcribed there and trusted; fmt's recovery of a panicking String() is not modelled (the model panics where "
+               "the method would) and goexec calls every nested String() directly as well",
                "cli/parsefile.go: the binary is built from a copy of the tree and run with a 5 s timeout and a 4 GiB address-space limit; a panic is "
                "recognised from stderr ('panic:' / 'goroutine '); its explicit panic(err) on a ReadPMT error is a pending finding (notes/findings/C05-cli.md) "
                "printed as KNOWN-FINDING"]
-PARTIAL = ("proof covers panic-freedom / termination of the modelled entry points (Properties/C05.v lists them); "
-           "memory and time bounds and aliasing are runtime observations made by goexec only")
+PARTIAL = ("proof covers panic-freedom / termination of the modelled entry points and of the printers' panic-relevant operations "
+           "(Properties/C05*.v), and size bounds of the results of six decoder models (Properties/C05Bound.v: ProgramMap, NewPMT, NewSCTE35, "
+           "ReadEncoderBoundaryPoint, accumulator, state tracker; not NewPESHeader, FilterPMTPacketsToPids, the stream readers); time bounds of the real code and aliasing are runtime observations made by goexec only")
 
 
 def seeds():
@@ -231,6 +237,26 @@ def structured_cases(rng, tier, out, seen):
                 pk += b"".join(T.packets(PMT_PID, rest, cc=2, pusi=False))
             for ent, n in (("psi.readpmt", PMT_PID), ("pkt.acc", None), ("psi.filter", 101), ("psi.filter", 10002), ("psi.filter", 10006)):
                 add(ent, pk, n, "split")
+    # printer shapes: every descriptor tag that decode() / the Decode* functions branch on, with 0..5 data bytes, as the
+    # only descriptor of a stream, as the first of two and as the last descriptor of the last stream (String(), Format()
+    # and the decoders index the data at fixed positions: Model/Printers.v)
+    for tag in (0x0A, 0x0E, 0x52, 0x7F, 0xE9, 0xCC, 0x05, 0xB0, 0x02, 0x97, 0x00):
+        for k in range(0, 6):
+            body = bytes([0x20] + [0x41 + i for i in range(k)])[:k]
+            for shape in (0, 1, 2):
+                if shape == 0:
+                    streams = [(0x1B, 0x65, [(tag, body)])]
+                elif shape == 1:
+                    streams = [(0x0F, 0x66, [(tag, body), (0x0A, b"eng\x00")])]
+                else:
+                    streams = [(0x1B, 0x65, [(0x05, b"CUEI")]), (0x86, 0x67, [(0x0E, b"\xc0\x04\xb0"), (tag, body)])]
+                psi_payload(b"\x00" + T.pmt_section(streams) + b"\xff" * 2, "printer-shapes", 0x65)
+    # the smallest sections: table_id 2 with section_length 0..24 (the decoders' minimum-length guards: 9 = static part + CRC,
+    # 13 in the filter), content taken from a valid section, followed by stuffing or by the rest of the valid section
+    valid = T.pmt_section([(0x1B, 0x100, [])], prog=1)
+    for sl in range(0, 25):
+        for tail in (b"\xff" * 4, valid[3 + sl:] + b"\xff" * 2, b""):
+            psi_payload(b"\x00" + bytes([0x02, 0xB0, sl]) + valid[3:3 + sl] + tail, "small-sections", 0x100)
     # a payload whose first section byte is stuffing (NewPMT inspects nothing) followed by bytes that announce a section:
     # every announced section_length class, in one and in two packets, with every derived PID list
     for sl in (0, 12, 13, 14, 100, 179, 180, 181, 183, 184, 364, 365, 366, 500, 1021, 1023):
@@ -301,17 +327,22 @@ def structured_cases(rng, tier, out, seen):
 
 
 def oracle(c, real, model):
-    """verdict from the REAL observation alone; when the real code is fine the model's outcome class is compared
-    (the model side of the same op, Exec/TotExec.v): a difference breaks the tie between the totality theorems
-    (Properties/C05*.v) and the code and is reported as a correspondence break ("fidelity:" prefix, see bin/check)."""
-    if real.startswith("[0 1]"):
-        if model != "[0 1]":
-            return "fidelity: the real code returns, the model of %s answers %s" % (c.line.split(" ")[0], MODEL_CLASS.get(model, model))
+    """verdict from the REAL observation alone; when the real code is fine the model's reply is compared
+    (the model side of the same op, Exec/TotExec.v): its outcome class, and the accept / reject bit e of the group's
+    primary decoder ([0 u e]).  A difference breaks the tie between the totality theorems (Properties/C05*.v) and the
+    code and is reported as a correspondence break ("fidelity:" prefix, see bin/check)."""
+    op = c.line.split(" ")[0]
+    if real.startswith("[0 1 "):
+        if not model.startswith("[0 1 "):
+            return "fidelity: the real code returns, the model of %s answers %s" % (op, MODEL_CLASS.get(model, model))
+        if real != model:
+            return ("fidelity: accept/reject differs for %s: the real primary decoder %s, its model %s"
+                    % (op, EBIT.get(real, real), EBIT.get(model, model)))
         return ""
-    if real.startswith("[0 0]"):
+    if real.startswith("[0 0"):
         return "a read-only operation modified a caller-supplied buffer"
     if real.startswith("[2"):
-        return "panic at " + site(real) + ("" if model == "[0 1]" else " (model: %s)" % MODEL_CLASS.get(model, model))
+        return "panic at " + site(real) + ("" if model.startswith("[0 1") else " (model: %s)" % MODEL_CLASS.get(model, model))
     if real == "[3]":
         return "hang or heap blow-up (watchdog)"
     if real == "[4]":
@@ -319,7 +350,37 @@ def oracle(c, real, model):
     return "unexpected reply " + real
 
 
-MODEL_CLASS = {"[0 1]": "returns", "[2 x]": "Panic", "[3]": "Diverge"}
+MODEL_CLASS = {"[0 1 0]": "returns a value", "[0 1 1]": "returns an error", "[2 x]": "Panic", "[3]": "Diverge"}
+EBIT = {"[0 1 0]": "returns a value", "[0 1 1]": "returns an error"}
+
+
+def search(c, rng):
+    """neighbourhood of a case whose model reply differs (correspondence break): its shrinks and single-byte changes,
+    judged by the real side alone (a panic / hang / modified input there is a failing input)"""
+    f = c.line.split(" ")
+    b = bytes.fromhex(f[1][1:])
+    rest = f[2:]
+    out = list(shrink(c))
+    for i in range(min(len(b), 64)):
+        for v in ((b[i] + 1) & 255, (b[i] - 1) & 255, b[i] ^ 0x80, 0xff):
+            out.append(Case(" ".join([f[0], hx(b[:i] + bytes([v]) + b[i + 1:])] + rest), kind=c.kind, decides=True, theorem=c.theorem))
+    for x in out:
+        x.owner = RealSideJudge   # a candidate fails only when the REAL code misbehaves on it
+    return out
+
+
+class RealSideJudge:
+    """judge of the search candidates: the property's own verdict (panic / hang / modified input of the real code); the
+    comparison with the model is left out, otherwise every neighbour that shows the same difference would be reported as
+    a failing input"""
+    @staticmethod
+    def oracle(c, real, model):
+        why = oracle(c, real, model)
+        return "" if why.startswith("fidelity:") else why
+
+    @staticmethod
+    def known_match(k, c, real, model):
+        return known_match(k, c, real, model)
 
 
 def site(real):
@@ -367,9 +428,10 @@ LEVEL_TEXT = ("Proof (partial, see level_note): the decoder models live in a Res
               "byte/bit corruptions of valid vectors and on random input, next to the model op of the same name; any panic, hang, heap "
               "blow-up or modified input buffer is reported with the input, a difference of outcome class as a correspondence break. "
               "The command-line tool is built and run on mutated transport-stream files.")
-LEVEL_NOTE = ("Partial: time/memory bounds and non-modification of caller buffers are runtime observations (goexec watchdog and "
-              "snapshots), not theorems; printers (String/Format), the state tracker at the end of scte.new and the cli binary "
-              "have no model and rest on the malformed-input run alone. Trusted: Coq kernel, model transcription, executor glue, Go runtime.")
+LEVEL_NOTE = ("Partial: time bounds and non-modification of caller buffers are runtime observations (goexec watchdog and "
+              "snapshots), not theorems; memory bounds are theorems about the decoder MODELS where Properties/C05Bound.v states them "
+              "(NewPESHeader, FilterPMTPacketsToPids and the stream readers are not covered), for the real code memory is watched by goexec; the text produced by the printers and the cli binary have no model (the printers' panic-relevant "
+              "operations, psi.CanBuildPMT and the state-tracker calls at the end of scte.new are modelled and proved total: Properties/C05Tot.v). Trusted: Coq kernel, model transcription, executor glue, Go runtime.")
 TECHNIQUE = "Coq totality theorems over Res-monad models (no Panic/Diverge for all inputs) + malformed-input differential run of every real entry point against the model op of the same name + cli binary on mutated files"
 
 
